@@ -783,7 +783,10 @@ class RealWorld(object):
         if not any(math.isfinite(float(m)) for m in binned):
             return 'NaNAll', None, None           # no bin comparable (NaN, or -inf: negative radius AND temperature)
         if any(math.isinf(float(m)) for m in binned):
-            raise Machinery('oracle model gave an infinite bin next to finite ones (outside the generated classes)')
+            # an infinite model value in some bins (negative radius AND temperature: -inf wherever the optical depth
+            # overflows): chi2 is infinite by the formula itself and the atmosphere is invalid -- the likelihood must not
+            # be finite; recorded with the spectra that have no comparable bin
+            return 'NaNAll', None, None
         z = [(float(d) - float(m)) / float(e) for d, m, e in
              zip(data, binned, self.twin_obs.errorBar) if float(m) == float(m)]
         if not z:
@@ -1166,10 +1169,10 @@ def run(ctx):
                               'ValidEqualsGaussian'), {}),
         # ONE long-lived optimizer pointed at three observations one after the other (other layout, other number of bins)
         (ctx.check_spec, ('exhaustive-hist', 'MC_Likelihood', 'MC_Likelihood_hist.cfg'),
-         dict(need_actions=('PriorCall', 'LogLike', 'SetObserved'), workers=4)),
+         dict(need_actions=('PriorCall', 'LogLike', 'SetObserved'), workers=2)),
         # the binner built at the first evaluation and never rebuilt: the model is binned to an earlier observation's bins
         (ctx.expect_refuted, ('binner-built-once-lazily', 'MC_Likelihood', 'MC_Likelihood_lazybinner.cfg',
-                              'ValidEqualsGaussian'), dict(workers=4)),
+                              'ValidEqualsGaussian'), dict(workers=1)),
         # the normalisation term formed as the log of a product: leaves binary64 for many bins / small or large units
         (ctx.expect_refuted, ('normalisation-log-of-product', 'MC_LikeNorm', 'MC_LikeNorm_ref_logprod.cfg',
                               'NormIsSumOfLogs'), dict(workers=1)),
@@ -1189,7 +1192,7 @@ def run(ctx):
                                             'NoGrowth'), {}))
         # the binner built by the constructor only: another number of bins raises out of the callback
         design.append((ctx.expect_refuted, ('binner-built-by-constructor-only', 'MC_Likelihood',
-                                            'MC_Likelihood_initbinner.cfg', 'NeverRaises'), dict(workers=4)))
+                                            'MC_Likelihood_initbinner.cfg', 'NeverRaises'), dict(workers=1)))
         design.append((ctx.expect_refuted, ('normalisation-half-log-of-product-of-squares', 'MC_LikeNorm',
                                             'MC_LikeNorm_ref_halflogprodsq.cfg', 'NormIsSumOfLogs'), dict(workers=1)))
         # non-vacuity: the generated observations do drive the product of the error bars out of binary64
